@@ -97,6 +97,28 @@ static std::string evalWrite(const std::vector<std::string>& t) {
     return hx;
 }
 
+// one writer object, two geometries in a row, then its settings read back: the writer's configuration must not depend on what it wrote
+static std::string evalWriteSeq(const std::vector<std::string>& t) {
+    size_t p = 1; WCfg c; if (t.empty() || !parseCfg(t, p, c)) return "bad-case";
+    size_t sep = p; while (sep < t.size() && t[sep] != ";;") sep++; if (sep >= t.size()) return "bad-case";
+    std::vector<std::string> ta(t.begin() + (long) p, t.begin() + (long) sep), tb(t.begin() + (long) sep + 1, t.end());
+    std::unique_ptr<Geometry> ga, gb;
+    try { ga = buildGeom(joinFrom(ta, 0), GF()); gb = buildGeom(joinFrom(tb, 0), GF()); } catch (std::exception&) { return "reject"; }
+    bool hex = t[0] == "WH";
+    GEOSWKBWriter* w = GEOSWKBWriter_create_r(H);
+    GEOSWKBWriter_setOutputDimension_r(H, w, c.dims); GEOSWKBWriter_setByteOrder_r(H, w, c.order); GEOSWKBWriter_setFlavor_r(H, w, c.flavor); GEOSWKBWriter_setIncludeSRID_r(H, w, (char) c.srid);
+    std::string out;
+    for (const Geometry* g : {ga.get(), gb.get()}) { size_t sz = 0;
+        unsigned char* buf = hex ? GEOSWKBWriter_writeHEX_r(H, w, (const GEOSGeometry*) g, &sz) : GEOSWKBWriter_write_r(H, w, (const GEOSGeometry*) g, &sz);
+        if (!buf) { out += "write-failed "; continue; }
+        if (hex) { std::string hx((const char*) buf, sz); for (auto& ch : hx) ch = (char) std::toupper((unsigned char) ch); out += hx + " "; } else out += HEXUP(buf, sz) + " ";
+        GEOSFree_r(H, buf); }
+    out += "s=" + std::to_string((int) GEOSWKBWriter_getIncludeSRID_r(H, w)) + " d=" + std::to_string(GEOSWKBWriter_getOutputDimension_r(H, w)) +
+           " o=" + std::to_string(GEOSWKBWriter_getByteOrder_r(H, w)) + " f=" + std::to_string(GEOSWKBWriter_getFlavor_r(H, w));
+    GEOSWKBWriter_destroy_r(H, w);
+    return out;
+}
+
 static std::string evalRead(const std::vector<std::string>& t) {
     if (t.empty()) return "bad-case";
     std::string payload = t.size() > 1 ? t[1] : "";
@@ -148,6 +170,7 @@ static std::string evalRoundtrip(const std::vector<std::string>& t, const std::s
 static std::string evalCase(const std::string& stream, const std::string& line) {
     auto t = splitToks(line);
     if (stream == "wkb-write") return evalWrite(t);
+    if (stream == "wkb-write-seq") return evalWriteSeq(t);
     if (stream == "wkb-read") return evalRead(t);
     if (stream == "wkb-roundtrip" || stream == "wkb-roundtrip-mixed") return evalRoundtrip(t, line);
     return "unknown-stream";
@@ -304,6 +327,12 @@ int main(int argc, char** argv) {
             }
             for (int k = 0; k < 2; k++) { WCfg c{r.range(2, 4), (int) r.below(2), 1, 0}; std::string api = r.chance(50) ? "L" : "LH";
                 std::string cs = api + " " + cfgToks(c) + " " + line; out.emit(cs, evalCase(stream, cs)); out.count("api_" + api); }
+        }
+    } else if (stream == "wkb-write-seq") {
+        for (long i = 0; i < n; i++) {
+            std::string a = r.chance(60) ? special() : genLine(20), b = genLine(20);
+            WCfg c = randCfg(); if (r.chance(60)) c.srid = 1; std::string api = r.chance(50) ? "W" : "WH";
+            std::string cs = api + " " + cfgToks(c) + " " + a + " ;; " + b; out.emit(cs, evalCase(stream, cs)); out.count("api_" + api); out.count(c.srid ? "include_srid" : "no_srid");
         }
     } else if (stream == "wkb-read") {
         for (auto& cb : guardCorpus()) { std::string cs = "B " + HEXUP(cb.data(), cb.size()); std::string e = evalCase(stream, cs); out.emit(cs, e);
